@@ -54,7 +54,46 @@ def shift_timestamps(content, delta):
     return b'\n'.join(out)
 
 
+def gen_own_constraint_history(rng, multi):
+    """
+    A search with its OWN since constraint, no file-level one.  First a log on which the
+    constraint passes lines; then, with the same objects (same searcher, or a new searcher
+    re-using them), a log that BEGINS with undated lines followed by entries older than the
+    since date: whatever the constraint object remembers of the first log - counters, offsets,
+    the last verdict - must not open the gate on the second.
+    """
+    day = rng.choice([3, 5, 9])
+
+    def ts(d, sec=0):
+        return (gen.BASE + timedelta(days=d, seconds=sec)).strftime('%Y-%m-%d %H:%M:%S').encode()
+    nfiles = 2 if multi else 1
+    first = [ts(day - 2) + b' alpha old'] + [ts(day + k, k) + b' beta new%d' % k
+                                              for k in range(rng.choice([1, 3]))]
+    second = [rng.choice([b'Traceback (most recent call last):', b'  continued line',
+                          b'gamma 7']) for _ in range(rng.choice([1, 2, 4]))] + \
+        [ts(day - 3, k) + b' delta old%d' % k for k in range(rng.choice([1, 2]))] + \
+        [ts(day + 1, k) + b' beta late%d' % k for k in range(rng.choice([1, 2]))]
+    defs = [{'pats': [r'.*\b(\w+)$'], 'hint': None, 'store': True, 'type': 'simple', 'tag': 't1',
+             'cons': [0]},
+            {'pats': [r'(\S+)'], 'hint': None, 'store': True, 'type': 'simple', 'tag': 't2'}]
+    regs = [[d, k] for d in range(len(defs)) for k in range(nfiles)]
+    mk = lambda lines: [{'name': f'f{k}.log', 'content': (b'\n'.join(lines) + b'\n').hex()}
+                        for k in range(nfiles)]
+    steps = [{'how': 'first', 'files': mk(first), 'regs': regs, 'new_regs': []},
+             {'how': rng.choice(['rewrite', 'new_searcher']), 'files': mk(second), 'regs': regs,
+              'new_regs': []}]
+    cur = gen.BASE + timedelta(days=day + 1)
+    hist = {'defs': defs, 'steps': steps,
+            'constraints': [{'current': cur.strftime('%Y-%m-%d %H:%M:%S'), 'days': 1,
+                             'matcher': 'std'}]}
+    if multi:
+        hist['max_parallel_tasks'] = 2
+    return hist
+
+
 def gen_history(rng, tier, multi):
+    if rng.random() < 0.12:
+        return gen_own_constraint_history(rng, multi)
     use_ts = rng.random() < 0.5
     kind = 'std'
     nfiles = rng.choice([2, 3]) if multi else 1
